@@ -95,3 +95,20 @@ Example C16_nonvacuous :
             ([107], JArr [JArr [JI64 1; JStr [114; 103; 98]; JArr [JI64 2]]; JI64 3]);
             ([99], JObj [(op_name LessThan, JObj [([114; 103; 98], JArr [JI64 1])])])])%N.
 Proof. split; [apply tape_wfb_sound; vm_compute; reflexivity | vm_compute; reflexivity]. Qed.
+
+(* Known finding (key header-dup, replayed on the implementation every run): inside the array part
+   of a mixed container a header and its container are two values for ValuesIter, while the header's
+   own JSON already includes the container: the container's content is emitted twice.
+   Witness: a = { b=1 2 3 {} c = rgb { 1 } }   (a tape the real parser produces; well formed). *)
+Definition dup_tape : ttape :=
+  [TUnquoted [97]; TObject 14 false; TUnquoted [98]; TUnquoted [49]; TMixedContainer; TUnquoted [50]; TUnquoted [51];
+   TArray 8 false; TEnd 7; TUnquoted [99]; THeader [114; 103; 98]; TArray 13 false; TUnquoted [49]; TEnd 11; TEnd 1]%N.
+
+Theorem C16_known_header_duplication :
+  tape_wf dup_tape /\
+  json_object (fun x => x) false default_options dup_tape (top_reader dup_tape) =
+  Ok (JObj [([97], JObj [([98], JI64 1);
+                         (s_remainder, JArr [JI64 2; JI64 3; JArr []; JStr [99];
+                                             JObj [([114; 103; 98], JArr [JI64 1])]; JArr [JI64 1]])])])%N.
+Proof. split; [apply tape_wfb_sound; vm_compute; reflexivity | vm_compute; reflexivity]. Qed.
+Print Assumptions C16_known_header_duplication.
